@@ -11,7 +11,7 @@ PREDICATES = S.PREDICATES
 PROP = dict(
     proof_modules=["VrpProofs.C01", "VrpProofs.C06", "VrpProofs.C06Cap", "VrpProofs.C06CapVec"],
     model_modules=["VrpModel.Route", "VrpModel.C06", "VrpModel.Prag", "VrpModel.Spec"],
-    drv="drv_c01", bin="c01", share_run=True,
+    drv="drv_c01", bin="c01", share_run=True, corpus_ids=["C01", "C02", "C03"],
     compare=S.make_compare("feasible"), nontrivial=S.nontrivial, extra_evidence=S.extra, rule=S.RULE,
     modelled="insertion evaluator (C06 model): time windows, shift, capacity; abstract tour machine (insert accepted by the evaluator, remove, "
              "drop route, fresh tour)",
